@@ -171,7 +171,20 @@ func (fi *FactInfo) edgeFacts(from, to *ssa.BasicBlock) factSet {
 	for f := range fi.implied(iff.Cond, pol) {
 		out[f] = true
 	}
+	// during a path search: what the branch condition stands for on the current path (a condition
+	// that is a join of several computations is resolved to the one taken, see paths.go)
+	if pathEdge.from == from && pathEdge.to == to && pathEdge.cond != nil {
+		for f := range fi.implied(pathEdge.cond, pol) {
+			out[f] = true
+		}
+	}
 	return out
+}
+
+// pathEdge is set by pathSearch while it asks a rule about one edge.
+var pathEdge struct {
+	from, to *ssa.BasicBlock
+	cond     ssa.Value
 }
 
 // implied expands "v is pol" into atomic facts.
@@ -508,6 +521,19 @@ func classifyErr(fi *FactInfo, b *ssa.BasicBlock, v ssa.Value, depth int) errKin
 		return errNil
 	}
 	switch x := v.(type) {
+	case *ssa.UnOp:
+		// a second load of the same error cell (bucket.Err) after a load of it was found non-nil: error
+		// cells of holders are latched (never reset to nil), so the later load is non-nil as well
+		if x.Op == token.MUL {
+			if f, _ := fieldOfAddr(x.X); f != nil && isErrorType(f.Type()) {
+				if fi.HoldsWhere(b, func(ft Fact) bool {
+					ld, ok := ft.V.(*ssa.UnOp)
+					return ok && ft.Kind == "nonnil" && ft.Pol && ld.Op == token.MUL && sameAddr(ld.X, x.X)
+				}) {
+					return errNonNil
+				}
+			}
+		}
 	case *ssa.MakeInterface:
 		// boxing a concrete value: non-nil interface
 		return errNonNil
